@@ -1,0 +1,31 @@
+//go:build verif
+
+// Contracts for the HTTP service (checked by /verif/bin/govc; comment-only file).
+package httpd
+
+// ---- C16: with authentication on and an administrator present, a handler runs only for verified credentials ----
+// The middleware hands the request to the wrapped handler on two paths: authentication is not required at all, or
+// it went through: basic / query credentials accepted by MetaClient.Authenticate, or a bearer token that parsed,
+// is valid and names a user the metadata knows. (While no administrator exists every request is let through with
+// a nil user - the bootstrap window, where the query authorizer only admits the creation of the first admin.)
+//@ func authenticate$1
+//@   props C16
+//@   nosafety
+//@   dynamic_calls_modify_nothing
+//@   ghost admin_exists bool = false
+//@   ghost verified bool = false
+//@   ghost token_ok bool = false
+//@   at after AdminUserExists#1: ghost admin_exists = callresult0
+//@   at after Authenticate#1: ghost verified = callresult1 == nil
+//@   at after jwt.Parse#1: ghost token_ok = callresult1 == nil
+//@   at after User#1: ghost verified = token_ok && callresult1 == nil && callresult0 != nil
+//@   call dynamic#2 requires runs_only_for_verified_credentials: !admin_exists || verified
+
+// parseCredentials only ever reports one of the two supported methods (so the `default:` arm of the middleware,
+// which reports "unsupported authentication" and then falls through to the handler, is dead code - if a third
+// method is ever added without an arm, this contract or the one above fails).
+//@ func parseCredentials
+//@   props C16
+//@   nosafety
+//@   dynamic_calls_modify_nothing
+//@   ensures a_supported_method_or_an_error: result1 == nil ==> result0 != nil && (result0.Method == 0 || result0.Method == 1)
